@@ -13,3 +13,13 @@ Proof.
   intros p. unfold src_port_invalid_all, src_port_invalid_0, src_port_invalid_1, src_port_invalid_2, src_port_invalid_3, port_ok.
   repeat constructor; lia.
 Qed.
+
+(* SSH_Socket._resolve as it reads now (T1c translation): the address family asked of getaddrinfo() and the direction of the sort for two preferences *)
+Lemma tie_resolve_family : forall pref, gai_family pref = src_resolve_family pref.
+Proof.
+  intros pref. unfold gai_family, src_resolve_family, src_znth, AF_INET, AF_INET6. cbv zeta.
+  destruct pref as [|v [|w r]]; cbn [List.length nth Z.to_nat]; try reflexivity.
+  assert (H: (Z.of_nat (S (S (List.length r))) =? 1) = false) by (apply Z.eqb_neq; lia). rewrite H. reflexivity.
+Qed.
+Lemma tie_resolve_reverse : forall a b, (a =? 6) = src_resolve_reverse [a; b].
+Proof. reflexivity. Qed.
